@@ -167,6 +167,13 @@ func runC01(c *engine.Ctx) {
 		// G5c: a header sent on several lines is one header with a list value
 		cases = append(cases, c01Case{kind: k, group: "header-repeated", path: "put-repeated", key: "h/k", keyName: "x-amz-meta-tags x2", size: 5, pattern: "mod251", integrity: "on", start: "absent"})
 		cases = append(cases, c01Case{kind: k, group: "header-repeated", path: "put-repeated-encoding", key: "h/k", keyName: "Content-Encoding x2", size: 5, pattern: "mod251", integrity: "on", start: "absent"})
+		// G5e: the request time may be written in any of the date forms HTTP knows (signature
+		// version 2 clients send an HTTP-date), with the skew check on as by default
+		if k == drv.Mem || k == drv.Bolt {
+			for _, f := range []string{"20060102T150405Z", "Mon, 02 Jan 2006 15:04:05 GMT", "Mon, 02 Jan 2006 15:04:05 -0700"} {
+				cases = append(cases, c01Case{kind: k, group: "amz-date", path: "put", key: "t/k", keyName: "x-amz-date as " + f, size: 5, pattern: "mod251", integrity: "on", start: "absent", meta: map[string]string{"X-Amz-Date": f}})
+			}
+		}
 		// G5d: a browser-form upload without a key has nothing a GET could name
 		cases = append(cases, c01Case{kind: k, group: "form-empty-key", path: "form", key: "", keyName: "(empty)", size: 5, pattern: "mod251", integrity: "on", start: "absent"})
 		// G6: a copy that replaces metadata leaves the source's metadata alone
@@ -228,7 +235,7 @@ func runC01(c *engine.Ctx) {
 		if cs.group == "header-value-not-utf8" {
 			cond = "header-value-not-utf8"
 		}
-		if cs.group == "header-repeated" || cs.group == "form-empty-key" {
+		if cs.group == "header-repeated" || cs.group == "form-empty-key" || cs.group == "amz-date" {
 			cond = cs.group
 		}
 		path := cs.path
@@ -243,11 +250,16 @@ func runC01(c *engine.Ctx) {
 }
 
 func c01Run(c *engine.Ctx, cs c01Case) (field, msg string) {
-	w, err := drv.NewWorld(drv.Config{Kind: cs.kind, NoIntegrity: cs.integrity == "off"})
+	w, err := drv.NewWorld(drv.Config{Kind: cs.kind, NoIntegrity: cs.integrity == "off", TimeSkew: cs.group == "amz-date"})
 	if err != nil {
 		engine.HarnessError("C01: %v", err)
 	}
 	defer w.Close()
+	if cs.group == "amz-date" {
+		// the current time of the world's clock, written in the case's layout
+		layout := cs.meta["X-Amz-Date"]
+		cs.meta = map[string]string{"X-Amz-Date": w.Clock.Now().UTC().Format(layout)}
+	}
 	if !cs.kind.IsSingle() {
 		w.Do(drv.Req{Method: "PUT", Path: "/aaa"})
 	}
@@ -276,7 +288,9 @@ func c01Run(c *engine.Ctx, cs c01Case) (field, msg string) {
 	}
 	wantMeta := map[string]string{}
 	for k, v := range cs.meta {
-		wantMeta[strings.ToLower(k)] = v
+		if cs.group != "amz-date" { // (the request time is not metadata of the object)
+			wantMeta[strings.ToLower(k)] = v
+		}
 	}
 	upETag := ""
 	switch cs.path {
